@@ -318,7 +318,11 @@ pub fn guided_lt_msg(rng: &mut impl Rng, d: &Driver) -> MsgSpec {
         }
     } else {
         match r(100) {
-            0..=39 => mk(2, 0, good, json!({})),
+            0..=35 => mk(2, 0, good, json!({})),
+            36..=37 => mk(3, 438, if r(3) != 0 { good } else if good == "sha" { "sha_bad" } else { "mi_bad" },
+                          json!({"nonce":"absent","realm":"ok"})),
+            38..=39 => mk(3, 401, if r(3) != 0 { good } else if good == "sha" { "sha_bad" } else { "mi_bad" },
+                          json!({"nonce":"fresh","realm":"absent","algs":"none","pa":false,"ua":false,"dup":false})),
             40..=54 => mk(3, 438, if r(2) == 0 { good } else { "none" },
                           json!({"nonce": if algs_present {"fresh_cookie"} else {"fresh"}, "pa": algs_present, "ua": false, "realm":"ok"})),
             55..=64 => mk(3, [400u16, 420, 500, 300][r(4) as usize], good, json!({})),
